@@ -49,6 +49,8 @@ def to_sym(x, sort):
         return NONE
     if base == "Perm":
         return conc_seq(tuple(x), "Perm")
+    if base.startswith("Perm*"):
+        return TupV([conc_seq(tuple(e), "Perm") for e in x])
     if base in ("int", "nat"):
         return IntV(int(x))
     if base == "bool":
